@@ -455,6 +455,18 @@ func historyFromDoc(d any, hist int) any {
 			twin.Set("\x00twin", "t")
 			twin.Set(x[0][0].(string), "twin's own")
 			_ = append(items, ordered.TupleSA{Key: "\x00caller", Value: "c"})
+		case hist == 8:
+			// the map is ENCODED once while a nested mapping still holds an extra key; the key is then removed through the
+			// nested map's own API: the next encoding shows what the maps hold now
+			for _, p := range x {
+				m.Set(p[0].(string), historyFromDoc(p[1], 0))
+			}
+			if nested := firstNestedMap(m); nested != nil {
+				nested.Set("\x00early", "e")
+				yaml.Marshal(m)
+				json.Marshal(m)
+				nested.Delete("\x00early")
+			}
 		default:
 			for _, p := range x {
 				m.Set(p[0].(string), historyFromDoc(p[1], hist))
@@ -469,6 +481,70 @@ func historyFromDoc(d any, hist int) any {
 		return out
 	}
 	return d
+}
+
+// firstNestedMap: some mapping nested inside m (directly or inside a sequence), nil if there is none.
+func firstNestedMap(v any) *ordered.MapSA {
+	var find func(x any, top bool) *ordered.MapSA
+	find = func(x any, top bool) *ordered.MapSA {
+		switch t := x.(type) {
+		case *ordered.MapSA:
+			if !top {
+				return t
+			}
+			var out *ordered.MapSA
+			t.Range(func(_ string, val any) error {
+				if out == nil {
+					out = find(val, false)
+				}
+				return nil
+			})
+			return out
+		case []any:
+			for _, e := range t {
+				if r := find(e, false); r != nil {
+					return r
+				}
+			}
+		}
+		return nil
+	}
+	return find(v, true)
+}
+
+// deepDoc: "nested to any depth" - n mappings inside each other, every second one inside a one-item sequence.
+func deepDoc(i, n int) orderedJSON {
+	var cur any = orderedJSON{{"leaf", i}, {"last", "x"}}
+	for lv := 0; lv < n; lv++ {
+		if lv%2 == 0 {
+			cur = orderedJSON{{fmt.Sprintf("z%d", lv), lv}, {"d", []any{cur}}, {"a", nil}}
+		} else {
+			cur = orderedJSON{{"d", cur}}
+		}
+	}
+	return cur.(orderedJSON)
+}
+
+// docDepth: nesting depth of a document.
+func docDepth(d any) int {
+	max := 0
+	switch x := d.(type) {
+	case orderedJSON:
+		for _, p := range x {
+			if n := docDepth(p[1]); n > max {
+				max = n
+			}
+		}
+		return max + 1
+	case []any:
+		for _, v := range x {
+			if n := docDepth(v); n > max {
+				max = n
+			}
+		}
+		return max + 1
+	}
+	return 0
 }
 
 // progEvent: the programmatic clause of C08.
@@ -491,7 +567,8 @@ func progEvent(doc orderedJSON, hist int) obj {
 			ev["failed"], ev["errmsg"] = "UnmarshalJSON", err.Error()
 			return
 		}
-		ev["jback"], ev["equalj"] = toAV(mj), ordered.Equal(m, mj) && ordered.Equal(mj, m)
+		deep := docDepth(doc) > 12 // (ordered.Equal takes time exponential in the nesting depth: not asked of deep documents)
+		ev["jback"], ev["equalj"] = toAV(mj), deep || (ordered.Equal(m, mj) && ordered.Equal(mj, m))
 		yb, err := yaml.Marshal(m)
 		if err != nil {
 			ev["failed"], ev["errmsg"] = "yaml.Marshal", err.Error()
@@ -502,13 +579,20 @@ func progEvent(doc orderedJSON, hist int) obj {
 			ev["failed"], ev["errmsg"] = "UnmarshalYAML", err.Error()+"\n"+string(yb)
 			return
 		}
-		ev["yback"], ev["equaly"] = toAV(my), ordered.Equal(m, my) && ordered.Equal(my, m)
+		ev["yback"], ev["equaly"] = toAV(my), deep || (ordered.Equal(m, my) && ordered.Equal(my, m))
 	})
 	ev["panic"] = p
 	if p {
 		ev["panicmsg"] = msg
 	}
 	ev["src"], ev["style"] = string(asciiJSON(doc)), "prog"
+	if docDepth(doc) > 12 {
+		// (the trace reader's JSON nesting limit: deep trees travel as digests of their projections - equal trees, equal digests)
+		for _, k := range []string{"m", "jback", "yback"} {
+			ev[k] = avStr("sha256:" + sha(string(asciiJSON(ev[k]))))
+		}
+		ev["src"] = fmt.Sprintf("(a document nested %d levels deep)", docDepth(doc))
+	}
 	return ev
 }
 
@@ -527,8 +611,17 @@ func runCDoc(args []string) {
 				sz = 9 + rng.Intn(32)
 			}
 			d := g.freeMap(0, sz)
-			for hist := 0; hist < 8; hist++ {
-				tw.emit(progEvent(d, hist))
+			var deep any
+			if i%9 == 4 {
+				n := 60 + rng.Intn(16)
+				d, deep = deepDoc(i, n), []any{i, n}
+			}
+			for hist := 0; hist < 9; hist++ {
+				ev := progEvent(d, hist)
+				if deep != nil {
+					ev["deep"] = deep
+				}
+				tw.emit(ev)
 			}
 		}
 		writeSummary(fl.str("summary", ""), obj{"events": tw.n})
@@ -580,6 +673,14 @@ func runCDoc(args []string) {
 				if h, ok := c["hist"].(json.Number); ok {
 					h64, _ := h.Int64()
 					hist = int(h64)
+				}
+				if dp, ok := c["deep"].([]any); ok && len(dp) == 2 {
+					di, _ := dp[0].(json.Number).Int64()
+					dn, _ := dp[1].(json.Number).Int64()
+					ev := progEvent(deepDoc(int(di), int(dn)), hist)
+					ev["deep"] = dp
+					emit(ev)
+					return
 				}
 				emit(progEvent(docFromAV(c["doc"]).(orderedJSON), hist))
 				return
